@@ -125,6 +125,9 @@ func fromModel(b map[string]any, idx int, salt int64) *caseSpec {
 		if op.Op == "Noop" {
 			continue
 		}
+		if fm, _ := m["fault"].(map[string]any); fm != nil && asString(fm["step"]) != "none" {
+			op.Fault = &faultSpec{Step: asString(fm["step"]), How: asString(fm["how"])}
+		}
 		switch op.Op {
 		case "Stage":
 			rs, _ := m["req"].([]any)
@@ -194,6 +197,59 @@ func protoCases(n int, salt int64) []*caseSpec {
 	return out
 }
 
+// faultCases: genuine I/O faults on the staging files (RLIMIT_FSIZE: the crossing
+// write is cut short, the next fails with EFBIG; or the rename into the store
+// fails) for files that fit into the store's 64 KiB write buffer (only the final
+// flush inside Commit touches the disk) and for a 150 000 byte file (two
+// intermediate flushes, then the final one), transferred or copied from the root.
+func faultCases(salt int64) []*caseSpec {
+	var out []*caseSpec
+	type fc struct {
+		content string
+		faults  []*faultSpec
+	}
+	small := len(contentBytes(salt, "c2"))
+	table := []fc{
+		{"c2", []*faultSpec{{FSize: small - 1}, {FSize: small / 2}, {FSize: 4096}, {Rename: true}, {FSize: small}}},
+		{"big", []*faultSpec{{FSize: 30000}, {FSize: 65536}, {FSize: 100000}, {FSize: 131072}, {FSize: 140000}, {FSize: 149999}, {Rename: true}, {FSize: 150000}}},
+	}
+	stageModes := []string{"", "neighboring", "internal"}
+	n := 0
+	for _, t := range table {
+		for _, f := range t.faults {
+			for _, src := range []string{"new", "swap", "copy"} {
+				for _, kind := range []string{"exact", "split"} {
+					if src == "copy" && kind == "split" {
+						continue
+					}
+					n++
+					cs := &caseSpec{Init: map[string]string{"a": "c1"}, Max: Unlimited, Mode: "tws", Src: "fault", Salt: salt,
+						StageMode: stageModes[n%3]}
+					path := []string{"n"}
+					chg := chgSpec{Path: path, New: t.content}
+					stage := opSpec{Op: "Stage"}
+					recv := opSpec{Op: "Recv", Kinds: []string{kind}}
+					switch src {
+					case "new":
+						recv.Fault = f
+					case "swap":
+						path = []string{"a"}
+						chg = chgSpec{Path: path, Old: "c1", New: t.content}
+						recv.Fault = f
+					case "copy":
+						cs.Init["b"] = t.content
+						stage.Fault = f
+					}
+					stage.Req = []reqSpec{{Path: path, C: t.content}}
+					cs.Ops = []opSpec{{Op: "Scan"}, stage, recv, {Op: "Trans", Chg: []chgSpec{chg}}}
+					out = append(out, cs)
+				}
+			}
+		}
+	}
+	return out
+}
+
 var transferKinds = []string{"exact", "exact", "split", "split", "corrupt", "truncated", "absent", "abort", "abort0"}
 
 // limitCases: the staging file size limit against files that do and do not fit,
@@ -240,6 +296,13 @@ func limitCases(salt int64) []*caseSpec {
 		}
 	}
 	return out
+}
+
+func randomFault(r *rand.Rand) *faultSpec {
+	if r.Intn(4) == 0 {
+		return &faultSpec{Rename: true}
+	}
+	return &faultSpec{FSize: []int{4000, 5000, 6500, 7000, 8000, 9000}[r.Intn(6)]}
 }
 
 // randomCase builds one seeded random script.
@@ -394,6 +457,9 @@ func randomCase(r *rand.Rand, salt int64) *caseSpec {
 		for _, q := range plan {
 			stage.Req = append(stage.Req, reqSpec{Path: strings.Split(q.path, "/"), C: q.content})
 		}
+		if r.Intn(10) == 0 {
+			stage.Fault = randomFault(r)
+		}
 		if r.Intn(12) != 0 {
 			cs.Ops = append(cs.Ops, stage)
 		}
@@ -402,6 +468,9 @@ func randomCase(r *rand.Rand, salt int64) *caseSpec {
 		}
 		if r.Intn(8) != 0 {
 			recv := opSpec{Op: "Recv"}
+			if r.Intn(6) == 0 {
+				recv.Fault = randomFault(r)
+			}
 			for range plan {
 				recv.Kinds = append(recv.Kinds, transferKinds[r.Intn(len(transferKinds))])
 			}
@@ -501,6 +570,11 @@ func runStaging(c *vlib.Ctx) error {
 		emit(cs)
 	}
 	c.SetExtra("size_limit_cases", len(lc))
+	fcs := faultCases(c.Seed)
+	for _, cs := range fcs {
+		emit(cs)
+	}
+	c.SetExtra("io_fault_cases", len(fcs))
 	for i := 0; i < nrand; i++ {
 		emit(randomCase(c.Rand, c.Seed*100000+int64(i)))
 	}
